@@ -48,6 +48,8 @@ pub struct RealRun {
   pub machinery: Option<String>,
   /// OutNearlyFull: everything that reached the virtual keyboard from the fault on (read at the very end)
   pub after_fault_out: Vec<Rec>,
+  /// the loop was found blocked in epoll_wait with input it had been notified about still unread (after this step)
+  pub stuck_unread: Option<usize>,
 }
 
 fn rec_bytes(r: &Rec) -> Vec<u8> {
@@ -81,7 +83,10 @@ fn thread_state(tid: i32) -> Option<(bool, u64)> {
   Some((blocked, v))
 }
 
-enum Wait { Quiescent, Returned(Result<(), String>), Machinery(String) }
+enum Wait { Quiescent, Returned(Result<(), String>), Machinery(String),
+  /// blocked in epoll_wait (woken and blocked again) although bytes it was notified about are still unread: with an
+  /// edge-triggered registration it will not be told again - the loop went back to waiting with input unread
+  StuckUnread }
 
 /// `min_vcs`: the loop thread must have blocked again at least this many times in total (an event that wakes it was
 /// delivered since the count was taken), so that "not yet scheduled after the wake-up" is never mistaken for rest
@@ -95,6 +100,13 @@ fn wait_settled(tid: i32, inputs: &[RawFd], rx: &mpsc::Receiver<Result<(), Strin
         if let Ok(r) = rx.try_recv() { return Wait::Returned(r); }
         if inputs.iter().all(|fd| fionread(*fd) == 0) { if let Some((true, v2)) = thread_state(tid) { if v1 == v2 && v1 >= min_vcs { return Wait::Quiescent; } } }
       }
+    }
+    // at rest in epoll_wait, demonstrably woken and blocked again, yet input is unread - and this for a full second
+    if t0.elapsed() > Duration::from_millis(1000) && inputs.iter().any(|fd| fionread(*fd) > 0) {
+      if let Some((true, v1)) = thread_state(tid) { if v1 >= min_vcs && min_vcs > 0 {
+        std::thread::sleep(Duration::from_millis(20));
+        if let Some((true, v2)) = thread_state(tid) { if v1 == v2 && inputs.iter().any(|fd| fionread(*fd) > 0) { return Wait::StuckUnread; } }
+      } }
     }
     if t0.elapsed() > Duration::from_secs(30) { return Wait::Machinery("the loop thread neither returned nor came to rest in epoll_wait within 30 s".into()); }
     std::thread::sleep(Duration::from_micros(50));
@@ -117,7 +129,7 @@ pub fn run_real(layout: &Layout, steps: &[Step], fault: &Fault) -> RealRun {
   });
   let tid = rx_tid.recv().unwrap();
   let inputs = [k_loop, t_loop];
-  let mut run = RealRun { per_step_out: vec![], returned: None, quiescent_after_fault: false, machinery: None, after_fault_out: vec![] };
+  let mut run = RealRun { per_step_out: vec![], returned: None, quiescent_after_fault: false, machinery: None, after_fault_out: vec![], stuck_unread: None };
   let mut out_near: Option<usize> = None; // junk bytes in front of what the loop wrote
   let mut fault_delivered = false; let mut out_closed = false; let mut out_full = false; let mut k_closed = false; let mut t_closed = false;
   let vcs = || thread_state(tid).map(|s| s.1).unwrap_or(0);
@@ -126,6 +138,7 @@ pub fn run_real(layout: &Layout, steps: &[Step], fault: &Fault) -> RealRun {
       Wait::Quiescent => { if fault_delivered { run.quiescent_after_fault = true; } true }
       Wait::Returned(r) => { run.returned = Some((r, at)); false }
       Wait::Machinery(m) => { run.machinery = Some(m); false }
+      Wait::StuckUnread => { run.stuck_unread = Some(at); false }
     }
   };
   let mut alive = settle(&mut run, 0, false, 0);
@@ -170,6 +183,7 @@ pub fn run_real(layout: &Layout, steps: &[Step], fault: &Fault) -> RealRun {
       Wait::Returned(r) => { run.returned = Some((r, steps.len())); alive = false; }
       Wait::Quiescent => { run.quiescent_after_fault = true; }
       Wait::Machinery(m) => { run.machinery = Some(m); }
+      Wait::StuckUnread => { run.stuck_unread = Some(steps.len()); }
     }
     if !out_closed && !out_full && out_near.is_none() { let tail = drain(out_r); if !tail.is_empty() { run.per_step_out.push(decode(&tail)); } }
   }
@@ -204,12 +218,12 @@ pub fn hangup_probe(layout: &Layout) -> HangupObs {
   });
   let tid = rx_tid.recv().unwrap();
   let inputs = [k_loop];
-  match wait_settled(tid, &inputs, &rx, 0) { Wait::Quiescent => {}, Wait::Returned(r) => return HangupObs::Machinery(format!("the loop returned {:?} before anything happened", r)), Wait::Machinery(m) => return HangupObs::Machinery(m) }
+  match wait_settled(tid, &inputs, &rx, 0) { Wait::Quiescent => {}, Wait::Returned(r) => return HangupObs::Machinery(format!("the loop returned {:?} before anything happened", r)), Wait::Machinery(m) => return HangupObs::Machinery(m), Wait::StuckUnread => return HangupObs::Machinery("input left unread".into()) }
   // one ordinary key event first: the pipe does work as a keyboard
   let v0 = thread_state(tid).map(|s| s.1).unwrap_or(0);
   let bytes: Vec<u8> = [kp(KeyCode::A, true), SYN].iter().flat_map(|r| rec_bytes(r)).collect();
   if !write_all(k_feed, &bytes) { return HangupObs::Machinery("feeder write failed".into()); }
-  match wait_settled(tid, &inputs, &rx, v0 + 1) { Wait::Quiescent => {}, Wait::Returned(r) => return HangupObs::Machinery(format!("the loop returned {:?} after one key event", r)), Wait::Machinery(m) => return HangupObs::Machinery(m) }
+  match wait_settled(tid, &inputs, &rx, v0 + 1) { Wait::Quiescent => {}, Wait::Returned(r) => return HangupObs::Machinery(format!("the loop returned {:?} after one key event", r)), Wait::Machinery(m) => return HangupObs::Machinery(m), Wait::StuckUnread => return HangupObs::Machinery("input left unread".into()) }
   let first = decode(&drain(out_r));
   if first.is_empty() { return HangupObs::Machinery("the key event sent through the pipe produced no output".into()); }
   // hang up
@@ -285,11 +299,11 @@ pub fn interrupt_probe(delay_ms: i32, pause_ms: u64, signals: usize) -> Interrup
   let tid = rx_tid.recv().unwrap();
   let inputs = [k_loop];
   let finish = |obs: InterruptObs| -> InterruptObs { unsafe { libc::close(k_feed); } let _ = rx.recv_timeout(Duration::from_secs(5)); unsafe { libc::close(out_r); } obs };
-  match wait_settled(tid, &inputs, &rx, 0) { Wait::Quiescent => {}, Wait::Returned(r) => return InterruptObs::Machinery(format!("the loop returned {:?} at once", r)), Wait::Machinery(m) => return finish(InterruptObs::Machinery(m)) }
+  match wait_settled(tid, &inputs, &rx, 0) { Wait::Quiescent => {}, Wait::Returned(r) => return InterruptObs::Machinery(format!("the loop returned {:?} at once", r)), Wait::Machinery(m) => return finish(InterruptObs::Machinery(m)), Wait::StuckUnread => return finish(InterruptObs::Machinery("input left unread".into())) }
   let v0 = thread_state(tid).map(|s| s.1).unwrap_or(0);
   let bytes: Vec<u8> = [kp(B, true), SYN].iter().flat_map(|r| rec_bytes(r)).collect();
   if !write_all(k_feed, &bytes) { return finish(InterruptObs::Machinery("feeder write failed".into())); }
-  match wait_settled(tid, &inputs, &rx, v0 + 1) { Wait::Quiescent => {}, Wait::Returned(r) => return InterruptObs::Machinery(format!("the loop returned {:?} after one key event", r)), Wait::Machinery(m) => return finish(InterruptObs::Machinery(m)) }
+  match wait_settled(tid, &inputs, &rx, v0 + 1) { Wait::Quiescent => {}, Wait::Returned(r) => return InterruptObs::Machinery(format!("the loop returned {:?} after one key event", r)), Wait::Machinery(m) => return finish(InterruptObs::Machinery(m)), Wait::StuckUnread => return finish(InterruptObs::Machinery("input left unread".into())) }
   let first = match epoll_timeout_ms(tid) { Some(t) => t, None => return finish(InterruptObs::Unavailable("the loop thread is not in epoll_wait (another poll system call?): its time-out cannot be read".into())) };
   if first <= 0 || first > delay_ms as i64 + 2 { return finish(InterruptObs::Machinery(format!("after the Special mapping fired the armed time-out is {} ms (delay {} ms)", first, delay_ms))); }
   let mut bound = first; let mut last = first;
@@ -298,7 +312,7 @@ pub fn interrupt_probe(delay_ms: i32, pause_ms: u64, signals: usize) -> Interrup
     std::thread::sleep(Duration::from_millis(pause_ms));
     let rc = unsafe { libc::syscall(libc::SYS_tgkill, libc::getpid(), tid, libc::SIGUSR1) };
     if rc != 0 { return finish(InterruptObs::Unavailable("tgkill failed".into())); }
-    match wait_settled(tid, &inputs, &rx, v1 + 1) { Wait::Quiescent => {}, Wait::Returned(r) => return InterruptObs::Machinery(format!("the loop returned {:?} after a signal", r)), Wait::Machinery(m) => return finish(InterruptObs::Machinery(m)) }
+    match wait_settled(tid, &inputs, &rx, v1 + 1) { Wait::Quiescent => {}, Wait::Returned(r) => return InterruptObs::Machinery(format!("the loop returned {:?} after a signal", r)), Wait::Machinery(m) => return finish(InterruptObs::Machinery(m)), Wait::StuckUnread => return finish(InterruptObs::Machinery("input left unread".into())) }
     last = match epoll_timeout_ms(tid) { Some(t) => t, None => return finish(InterruptObs::Unavailable("time-out unreadable after the signal".into())) };
     bound -= pause_ms as i64;
     if last > bound + 2 { break; }
@@ -331,6 +345,9 @@ fn show_steps(steps: &[Step]) -> String { steps.iter().map(|s| format!("{:?}{:?}
 /// first discrepancy of one scenario: (property, clause, detail)
 pub fn judge(sc: &Scenario, run: &RealRun) -> Option<(&'static str, &'static str, String)> {
   let exp = reference(&sc.layout, &sc.steps);
+  if let Some(at) = run.stuck_unread {
+    return Some(("C10", "real-driver-waits-with-unread-input", format!("after step {} of [{}] the loop is blocked in epoll_wait (woken once and blocked again) while bytes it has been notified about are still unread: with the edge-triggered registration it stays there until the next event", at, show_steps(&sc.steps))));
+  }
   if let Fault::OutNearlyFull { before, free } = &sc.fault {
     // before the fault: step by step as usual
     for i in 0..(*before).min(sc.steps.len()) {
@@ -532,13 +549,19 @@ pub fn run_family(ctx: &Ctx, id: &str) -> RAgg {
   // is the stepping mechanism available here at all?
   match thread_state(unsafe { libc::syscall(libc::SYS_gettid) } as i32) { Some(_) => {}, None => { agg.note = Some("real-descriptor tier skipped: /proc/self/task/<tid>/syscall or status is not readable here".into()); return agg; } }
   let scs = scenarios(id, ctx.tier);
+  // once a scenario ends as a machinery failure, or several have shown the loop stuck with unread input (each costs a second
+  // of waiting), the rest of the family is skipped: the verdict is there, and a tree that hangs must not make the check hang
+  let abort = std::sync::atomic::AtomicUsize::new(0);
   let results: Vec<(RealRun, Option<(&'static str, &'static str, String)>)> = par_map(scs.len(), ctx.threads.min(8), |i| {
+    if abort.load(std::sync::atomic::Ordering::Relaxed) >= 8 { return (RealRun { per_step_out: vec![], returned: None, quiescent_after_fault: false, machinery: None, after_fault_out: vec![], stuck_unread: None }, None); }
     let mut run = run_real(&scs[i].layout, &scs[i].steps, &scs[i].fault);
+    if run.machinery.is_some() { abort.fetch_add(8, std::sync::atomic::Ordering::Relaxed); }
+    if run.stuck_unread.is_some() { abort.fetch_add(1, std::sync::atomic::Ordering::Relaxed); }
     let mut verdict = if run.machinery.is_some() { None } else { judge(&scs[i], &run) };
     if verdict.is_some() {
       // a failure must reproduce: the same scenario once more, identical observations required
       let again = run_real(&scs[i].layout, &scs[i].steps, &scs[i].fault);
-      if again.per_step_out != run.per_step_out || again.after_fault_out != run.after_fault_out || again.returned.as_ref().map(|r| (r.0.is_ok(), r.1)) != run.returned.as_ref().map(|r| (r.0.is_ok(), r.1)) { run.machinery = Some(format!("scenario [{}] {:?} is not deterministic: first {:?} / {:?}, then {:?} / {:?}", show_steps(&scs[i].steps), scs[i].fault, run.per_step_out, run.returned, again.per_step_out, again.returned)); verdict = None; }
+      if again.per_step_out != run.per_step_out || again.after_fault_out != run.after_fault_out || again.stuck_unread != run.stuck_unread || again.returned.as_ref().map(|r| (r.0.is_ok(), r.1)) != run.returned.as_ref().map(|r| (r.0.is_ok(), r.1)) { run.machinery = Some(format!("scenario [{}] {:?} is not deterministic: first {:?} / {:?}, then {:?} / {:?}", show_steps(&scs[i].steps), scs[i].fault, run.per_step_out, run.returned, again.per_step_out, again.returned)); verdict = None; }
     }
     (run, verdict)
   });
